@@ -418,6 +418,27 @@ impl<'a> SignatureManyReader<'a> {
                                     }
                                 }
                             } else {
+                                // No hasher (unsupported hash algorithm or signature version):
+                                // this signature can not be verified.
+                                // Still consume the trailing signature packet that belongs to it
+                                // and record the packet, so that `hashes` and `signatures` stay
+                                // aligned (the same index must refer to the same packet in both).
+                                match packet {
+                                    SignaturePacket::Ops { signature: ops } => {
+                                        let Some(signature) = one_pass_signatures.pop() else {
+                                            return Err(io::Error::new(
+                                                io::ErrorKind::UnexpectedEof,
+                                                "missing signature packet",
+                                            ));
+                                        };
+                                        signatures
+                                            .push(FullSignaturePacket::Ops { ops, signature });
+                                    }
+                                    SignaturePacket::Signature { signature } => {
+                                        signatures
+                                            .push(FullSignaturePacket::Signature { signature });
+                                    }
+                                }
                                 hashes.push(None);
                             }
                         }
